@@ -209,7 +209,16 @@ def rule_i9(ctx):
         raise Unrecognised("C13.I9", c, f"instantiation `{' '.join(src(bad[0]).split())[:60]}` not understood")
     else:
         ctx.ok("I9-connect-keeps-identities", c, f"`{add}` placed into the connecting tree on every path", site(inst[0]), "replace_path(leaf, tree_to_add)")
-    recv = {src(b.func.value) for b in branches(inst[0].value) if is_replace(b)}
+    def resolved_branches(e, depth=0):
+        out = []
+        for b in branches(e):
+            if isinstance(b, ast.Name) and depth < 3 and len(defs(b.id)) == 1:
+                out += resolved_branches(defs(b.id)[0].value, depth + 1)
+            else:
+                out.append(b)
+        return out
+
+    recv = {src(b.func.value) for b in resolved_branches(inst[0].value) if is_replace(b)}
     if len(recv) != 1:
         raise Unrecognised("C13.I9", c, "receiver of the instantiation not unique")
     wid = defs(recv.pop())
